@@ -163,9 +163,9 @@ func checkUpdate(c updCase) *vt.Fail {
 		got := string(na.Files[i].Data)
 		// txtar adds the final newline an entry lacks
 		if got != exp && got != exp+"\n" {
-			if sub.Verdict == "pass" {
-				return vt.Failf("updated-entry-wrong", "entry %q should hold the actual content %q (stored form %q) but holds %q%s", name, want.Updates[name], exp, got, ctx)
-			}
+			// (also when a later line failed for another reason, or the script was skipped: the comparison that was
+			// turned into an update has happened, and the statement ties the rewrite to that comparison)
+			return vt.Failf("updated-entry-wrong", "entry %q should hold the actual content %q (stored form %q) but holds %q (run reported %s)%s", name, want.Updates[name], exp, got, sub.Verdict, ctx)
 		}
 	}
 	// canonical originals: byte for byte
@@ -259,7 +259,7 @@ func trunc(s string, n int) string {
 // ---- generator ----
 
 var entryNames = []string{"golden", "want.txt", "exp/out.golden", "stderr.golden", "b.txt", "data/x", "exp/golden", "data/want.txt", "my golden.txt", "exp dir/é.golden"}
-var texts = []string{"hello out\n", "alpha\nbeta\n", "", "one two\n", "line\nwith $HOME\n", "warning: something\n", "\n\nblank lines around\n\n", "  indented  \n", "\n"}
+var texts = []string{"hello out\n", "alpha\nbeta\n", "", "one two\n", "line\nwith $HOME\n", "warning: something\n", "\n\nblank lines around\n\n", "  indented  \n", "\n", ">looks quoted\n>second line\n", ">\n"}
 var actuals = []string{`hello out\n`, `alpha\nbeta\n`, `changed text\n`, `one two\n`, `no final newline`, `-- x --\nfoo\n`, `foo\n-- x --`, `cr\r\n`, "bad\xffutf8\\n", `>already quoted\n`, `a\n-- y --\nb\n`, "", `-- x --\n\xff\n`}
 
 func pathDir(p string) string {
